@@ -22,6 +22,9 @@ var c02PrimeOrder = map[string]string{
 // in-place operations: they read their receiver by design
 var c02InPlace = regexp.MustCompile(`\)\.(AddAssign|SubAssign|DoubleAssign|AddMixed|DoubleMixed|add|addMixed|subMixed|ClearCofactor)$`)
 
+// unexported fluent operations of the reference tree (their contracts were read there)
+var c02KnownUnexported = regexp.MustCompile(`\)\.(fromJacExtended|setInfinity|phi|psi|subMixed|addMixed|add|double|doubleMixed|doubleNegMixed|mulWindowed|mulGLV|mulBySeed|unsafeFromJacExtended|scalarMulWindowed|scalarMulGLV)$`)
+
 func checkC02(c *Ctx) {
 	p := mustLoad(c, K1)
 	eff := NewEffects(p)
@@ -168,6 +171,13 @@ func checkC02(c *Ctx) {
 		full, exposed := setterVerdict(eff, fn)
 		pk := relPkg(fnPkgPath(fn))
 		inPlace := c02InPlace.MatchString(k)
+		// an unexported method that is not one of the operations of the reference tree is a helper
+		// somebody carved out of one of them: whether it continues an in-place computation is not
+		// documented anywhere, so only its callers are judged
+		if fn.Object() != nil && !fn.Object().Exported() && !c02KnownUnexported.MatchString(k) {
+			c.Note(k + ": unexported helper without a documented contract, judged through its callers")
+			continue
+		}
 		if !inPlace || full {
 			msg := ""
 			if !full {
